@@ -206,6 +206,9 @@ func (sh *scriptHop) respond(p *peer, connIdx, reqIdx int, req *wireMsg, w io.Wr
 	ct := "application/octet-stream"
 	if u.Sse {
 		ct = "text/event-stream"
+		if u.Ev == "param" {
+			ct = "text/event-stream; charset=utf-8"
+		}
 	}
 	noBody := req.Method == "HEAD" || u.St == 204 || u.St == 304
 	if u.St != 204 && u.St != 304 {
@@ -1040,6 +1043,9 @@ func (he *h1Env) sequence(si int, seq []h1Exchange) map[string]any {
 			wantCT := "application/octet-stream"
 			if ex.Up.Sse {
 				wantCT = "text/event-stream"
+				if ex.Up.Ev == "param" {
+					wantCT = "text/event-stream; charset=utf-8"
+				}
 			}
 			if got.first("Content-Type") != wantCT {
 				fail(k, "Content-Type "+got.first("Content-Type"))
